@@ -154,7 +154,8 @@ def run(tier, pid="C01"):
 
     matched = [byname[n] for n in ran if n not in mism and sem.liftable(byname[n])]
     if tier != "thorough":
-        matched = [u for u in matched if zlib.crc32(u.name.encode()) % 3 == 0]
+        # the generated families (arithmetic trees, statement grammar) are sampled; every hand-written feature unit is lifted
+        matched = [u for u in matched if u.name[:3] not in ("ar_", "fl_", "bo_", "gq_", "gi_") or zlib.crc32(u.name.encode()) % 3 == 0]
     lift_stats = {}
     not_built_lifts = {}
     for kind in ("method", "module"):
@@ -204,6 +205,25 @@ def run(tier, pid="C01"):
             g_ok += 1
             sigs_ok.add(u.tags + ("lift:module-general",))
     lift_stats["module-general"] = {"lifted": len(multi), "matched_reference": g_ok}
+    # ---- and with types and functions in two different imported modules (the function module imports the type module)
+    chain = [(u, sem.module_lift_chain(u)) for u in multi]
+    chain = [(u, f) for u, f in chain if f]
+    cres = pipe.run_many([(k, f) for k, (u, f) in enumerate(chain)])
+    c_ok = 0
+    for k, (u, f) in enumerate(chain):
+        r = cres[k]
+        if r.stage != "run":
+            not_built_lifts[f"lift:module-chain|unit:{u.name}"] = f"{r.stage}: {r.detail}"  # reported by C02 (if the checker accepts it)
+            continue
+        why = compare(u, sem.split_frames(r.stdout).get(u.name), r, exp[u.name])
+        if why and why.startswith("MACHINERY"):
+            raise common.MachineryError(f"{u.name} (chain lift): {why}")
+        if why:
+            out.fail(f"lift:module-chain|unit:{u.name}", {"unit": u.name, "tags": list(u.tags), "incan": json.dumps(f), "reference_python": sem.pack([u])[1], "why": why})
+        else:
+            c_ok += 1
+            sigs_ok.add(u.tags + ("lift:module-chain",))
+    lift_stats["module-chain"] = {"lifted": len(chain), "matched_reference": c_ok}
     # units the checker accepted but that do not build are C02's subject; they are outside what C01 can observe
     cov = {
         "evaluations": len(accepted),
